@@ -214,10 +214,10 @@ claim("C14", "model_checking", "TLA+ declarative definitions of the library func
       "StdLib.tla defines Index, LastIndex, Contains, Count, HasPrefix/Suffix, Split, Join, Fields, Replace (including the empty-pattern rule), Repeat, Compare, EqualFold, Trim*, ToUpper/ToLower; "
       "strconv.Itoa/FormatInt in bases 2..36 and ParseInt with Go's left-to-right syntax/range rule at 8 and 16 bits; utf8.DecodeRuneInString/RuneCountInString/ValidString as the decoding "
       "automaton with every invalid class; hex encode/decode with its error cases; base64 as bit regrouping with padding; math/bits Leading/TrailingZeros, OnesCount, Len, Reverse, ReverseBytes, "
-      "RotateLeft at 8/16/32/64 bits on BV.tla; sort.Ints (the ordered permutation) and SearchInts; adler32, crc32 (bitwise IEEE polynomial) and fnv-1/1a as folds. Documented Go results are an "
+      "RotateLeft at 8/16/32/64 bits on BV.tla; sort.Ints (the ordered permutation) and SearchInts; adler32, crc32 (bitwise IEEE polynomial), fnv-1/1a and md5 (RFC 1321 on BV.tla, messages around the padding boundaries) as folds. Documented Go results are an "
       "invariant of the spec. TLC evaluates 36 000 (quick) / 150 000 (thorough) cases; each is a call in a generated Wa program (the string cases against both `strings` and `bytes`), the printed "
       "result must equal the definition's; a case that stops the program is reported and the rest re-run.",
-      "Partial claim: TLC integers are 32-bit, so 64-bit strconv limits are not reached; strconv ftoa/atof, crypto/md5, base32, encoding/binary, utf16 and the container packages are not decided. "
+      "Partial claim: TLC integers are 32-bit, so 64-bit strconv limits are not reached; strconv ftoa/atof, base32, encoding/binary, utf16 and the container packages are not decided. "
       "The definitions follow Go's documented behaviour; they were not cross-run against Go's library inside the check.",
       "DESIGN.md section 4 (C14)")
 claim("C15", "model_checking", "TLA+ exact (128-bit) constant semantics evaluated by TLC + compilation of every constant form (value printed, or positioned compile error)",
